@@ -61,11 +61,13 @@ pub struct Scenario {
     pub page_budget: Option<u64>,
     /// do not expand states beyond this many per scenario (reported as a cap)
     pub state_cap: usize,
+    /// OpenReader is a no-op once this many readers are open
+    pub max_readers: usize,
 }
 
 impl Scenario {
     pub fn new(name: &str, cfg: Cfg, setup: Vec<Action>, alphabet: Box<dyn Alphabet>, depth: usize, oracles: Oracles) -> Scenario {
-        Scenario { name: name.into(), cfg, setup, alphabet, depth, oracles, extra_probes: vec![], bisim_followups: vec![], drop_keeps_digest: false, poison_unmap: false, rel_digest: false, page_budget: None, state_cap: 3_000_000 }
+        Scenario { name: name.into(), cfg, setup, alphabet, depth, oracles, extra_probes: vec![], bisim_followups: vec![], drop_keeps_digest: false, poison_unmap: false, rel_digest: false, page_budget: None, state_cap: 3_000_000, max_readers: 3 }
     }
 
     pub fn history(&self, h: &[u32]) -> History {
@@ -163,6 +165,15 @@ fn run_transition(sc: &Scenario, path: &str, h: &[u32], a: Option<usize>, base: 
     }
     if let Some(ai) = a {
         let act = sc.alphabet.get(ai);
+        if act == Action::OpenReader && r.num_readers() >= sc.max_readers {
+            // bounded number of simultaneous readers: not a transition
+            return res;
+        }
+        if let Action::CloseReader(i) = act {
+            if i >= r.num_readers() {
+                return res;
+            }
+        }
         let before = if sc.drop_keeps_digest && is_noncommitting(&act) { Some(r.digest()) } else { None };
         let v = r.step(&act, &sc.oracles);
         res.violations.extend(v);
